@@ -2,6 +2,7 @@ package checks
 
 import (
 	"fmt"
+	"regexp"
 	"sort"
 	"strings"
 	"sync"
@@ -16,6 +17,10 @@ import (
 func init() { Registry["C17"] = C17 }
 
 var c17Paths = []string{"a.txt", "b.txt", "sub/c.txt", "a b.txt", "-dash.txt", "q'uote.txt", "dollar$HOME.txt", "star*.txt", "semi;colon.txt", "UP.TXT", "two  blanks.txt", "paren(1).txt", "amp&.txt", "hash#.txt", "tilde~.txt"}
+
+// c17CellKey takes a cell key apart: family, quoted path, quoted content, context.
+var c17CellKey = regexp.MustCompile(`^(cell|cell-without-read) path=("(?:[^"\\]|\\.)*") content=("(?:[^"\\]|\\.)*") ctx=(\S+)$`)
+
 var c17Contents = []string{"one", "two words", "", "it's", `q"q`, "$HOME", "*", "a  b", " lead", "trail ", "-n", "back\\slash", "semi;colon", "line1\nline2", "tab\tsep", "`id`", "$(id)", "x > y", "100%", "#hash", "a&b", "(paren)", "~", "!bang", "tail\n", "\n", "two\n\n", "\nlead"}
 
 type c17Op struct {
@@ -275,6 +280,22 @@ func C17() int {
 				return true
 			}
 			panic("HARNESS ERROR: c17 case not deterministic: " + name)
+		}
+		// A cell OFF the two axes (thorough: the full product) that fails, and whose path or content is a listed
+		// finding on its axis in the same context, cannot be judged on its own: it contains a listed ingredient. It is
+		// attributed to that listed cell (content first); a failing off-axis cell whose two ingredients both pass
+		// on their axes keeps its own key and is a violation.
+		if !r.IsKnown(key) {
+			if m := c17CellKey.FindStringSubmatch(key); m != nil && m[2] != `"a.txt"` && m[3] != `"one"` {
+				byContent := fmt.Sprintf("%s path=\"a.txt\" content=%s ctx=%s", m[1], m[3], m[4])
+				byPath := fmt.Sprintf("%s path=%s content=\"one\" ctx=%s", m[1], m[2], m[4])
+				switch {
+				case r.IsKnown(byContent):
+					key = byContent
+				case r.IsKnown(byPath):
+					key = byPath
+				}
+			}
 		}
 		r.Fail(key, fmt.Sprintf("%s: %s (%s)", name, pv.Symptom, pv.Detail), progReplay(pv, nil))
 		return false
